@@ -7,6 +7,7 @@ if [ -n "$(git status --porcelain --untracked-files=no)" ]; then echo "/repo is 
 git apply "$P" 2>/dev/null || git apply -C1 --recount "$P" || { echo "patch does not apply"; exit 2; }
 trap 'git -C /repo checkout -- . ' EXIT
 cd /verif
+export VERIF_EVIDENCE_DIR=/tmp/vw/seed_evidence; mkdir -p $VERIF_EVIDENCE_DIR
 for p in "$@"; do
   ./check $p > /tmp/vw/seedtest_$p.log 2>&1; rc=$?
   echo "== $p exit=$rc  $(grep -c '^VIOLATION' /tmp/vw/seedtest_$p.log) violation(s)"
